@@ -5,7 +5,7 @@ import ast
 
 from ..algebra import NotPolynomial, Poly, ToPoly
 from ..flow import single_assign_env, axis_loops, rename
-from ..fold import Folder, Obj, Opaque, Raised, Refuse, Sym, TypeTag
+from ..fold import Arr, Folder, Obj, Opaque, Raised, Refuse, Sym, TypeTag
 from ..report import AnalysisError
 from ..srcmodel import norm
 from . import c20
@@ -213,13 +213,22 @@ class ColFolder(Folder):
             return _ew(ast.Mult(), v, -1)
         return super().e_UnaryOp(n, env)
 
-    def _col_index(self, sl, env):
+    def _col_index(self, sl, env, ncols=None):
         """Index expression of A[:, k] / A[k] -> int or list of ints."""
         if isinstance(sl, ast.Tuple) and len(sl.elts) == 2 and isinstance(sl.elts[0], ast.Slice) and sl.elts[0].lower is None and sl.elts[0].upper is None:
             sl = sl.elts[1]
+            if isinstance(sl, ast.Slice) and ncols is not None and sl.step is None:
+                # A[:, a:b]: a contiguous block of columns
+                lo = self.ev(sl.lower, env) if sl.lower is not None else None
+                hi = self.ev(sl.upper, env) if sl.upper is not None else None
+                if all(x is None or (isinstance(x, int) and not isinstance(x, bool)) for x in (lo, hi)):
+                    return list(range(ncols))[slice(lo, hi)]
+                raise Refuse("non-constant column slice")
         elif isinstance(sl, ast.Tuple):
             raise Refuse("subscript form")
         k = self.ev(sl, env)
+        if isinstance(k, Arr) and len(k.shape) == 1:
+            k = list(k.data)
         if isinstance(k, int) and not isinstance(k, bool):
             return k
         if isinstance(k, (list, tuple)) and all(isinstance(x, int) for x in k):
@@ -229,7 +238,7 @@ class ColFolder(Folder):
     def e_Subscript(self, n, env):
         v = self.ev(n.value, env)
         if isinstance(v, Cols):
-            k = self._col_index(n.slice, env)
+            k = self._col_index(n.slice, env, len(v.cols))
             try:
                 if isinstance(k, int):
                     return v.cols[k]
@@ -246,7 +255,7 @@ class ColFolder(Folder):
         if isinstance(t, ast.Subscript):
             c = self.ev(t.value, env)
             if isinstance(c, Cols):
-                k = self._col_index(t.slice, env)
+                k = self._col_index(t.slice, env, len(c.cols))
                 if isinstance(k, int):
                     if not (0 <= k < len(c.cols)):
                         raise Raised("IndexError", t)
@@ -357,14 +366,46 @@ def eval_map(ctx, func, d, T_i):
         return t.node if t is interp else None
 
     axes = "xyz"[:d]
-    me = Obj("self", {
+    std = {
         "axes": axes, "indexing": "ijk"[:d], "dim": d,
         "voxel_size": {a: Poly.atom(f"h_{a}") for a in axes},
         "_coordinate_of_origin_voxel": Cols([Poly.atom(f"o{c}") for c in range(d)]),
-    })
+    }
+    # further attributes the constructor derives (lookup tables built once, ...): its statements are folded, as far as they fold, on an
+    # image whose voxel sizes are named after the Cartesian axis the table assigns to each matrix position
+    me = Obj("self")
+    init = m.func(CS, "CoordinateSystem.__init__")
+    try:
+        hm = [None] * d
+        for a in axes:
+            row = T_i[(a, "ijk"[:d])]
+            if row[0] == "ret":
+                hm[row[1][0]] = Poly.atom(f"h_{a}")
+        img = Obj("img", {"indexing": "ijk"[:d], "space_dim": d, "voxel_size": hm, "origin": std["_coordinate_of_origin_voxel"],
+                          "dimensions": [Poly.atom(f"D{k}") for k in range(d)], "img": Obj("arr", {"shape": tuple(10 + k for k in range(d + 1))})})
+        def resolver0(call):
+            t = m.resolve_call(call, init)
+            return t.node if t is interp else None
+        f0 = F(resolver0, d)
+        f0.func_stack.append(init.node)
+        env0 = {init.params[0]: me, (init.params[1] if len(init.params) > 1 else "img"): img}
+        for st in init.node.body:
+            try:
+                f0.stmt(st, env0)
+            except (Refuse, Raised):
+                pass
+    except Exception:
+        me = Obj("self")
+    me.fields.update(std)
     inp = Cols([Poly.atom(f"IN{k}") for k in range(d)])
     fo = F(resolver, d)
-    return fo.call(func.node, [me, inp])
+    try:
+        return fo.call(func.node, [me, inp])
+    except Raised as e:
+        nd = getattr(e, "node", None)
+        if e.name == "AttributeError" and isinstance(nd, ast.Attribute) and isinstance(nd.value, ast.Name) and nd.value.id == func.params[0] and nd.attr not in me.fields:
+            raise AnalysisError(f"{func.qname} reads self.{nd.attr}, which the constructor fold did not produce: the map is outside what this rule evaluates")
+        raise
 
 
 def ctx_dotted(n):
